@@ -923,7 +923,11 @@ spifconf_parse_line(FILE * fp, spif_charptr_t buff)
       case '\0':
           SPIFCONF_PARSE_RET();
       case '%':
-          if (!BEG_STRCASECMP(spiftool_get_pword(1, buff + 1), "include ")) {
+        {
+          /* A lone '%' has no directive word:  get_pword() answers NULL for it. */
+          spif_charptr_t directive = spiftool_get_pword(1, buff + 1);
+
+          if (directive && !BEG_STRCASECMP(directive, "include ")) {
               spif_charptr_t path;
               FILE *inc_fp;
 
@@ -935,7 +939,7 @@ spifconf_parse_line(FILE * fp, spif_charptr_t buff)
               } else {
                   file_push(inc_fp, path, NULL, 1, 0);
               }
-          } else if (!BEG_STRCASECMP(spiftool_get_pword(1, buff + 1), "preproc ")) {
+          } else if (directive && !BEG_STRCASECMP(directive, "preproc ")) {
               spif_char_t cmd[PATH_MAX], fname[PATH_MAX];
               spif_charptr_t outfile;
               int fd;
@@ -965,6 +969,7 @@ spifconf_parse_line(FILE * fp, spif_charptr_t buff)
               }
               spifconf_shell_expand((spif_charptr_t) buff);
           }
+        }
           break;
       case 'b':
           if (file_peek_skip()) {
